@@ -25,11 +25,11 @@ ALLV = "fresh,reloaded,second,reloaded2,multi,multi"
 # property -> (batches, antecedent marks, what makes a trace non-trivial)
 # batch = (profile, cases at quick tier, extra harness arguments)
 PLAN = {
-    "C01": ([("pattern", 2, []), ("core", 500, ["-variants", ALLV]), ("memo", 300, ["-variants", ALLV]), ("control", 120, [])],
+    "C01": ([("pattern", 2, []), ("patternx", 1, []), ("core", 500, ["-variants", ALLV]), ("memo", 300, ["-variants", ALLV]), ("control", 120, [])],
             ["C01"], "a rule that was a candidate in the previous cycle is evaluated again after an action made its condition false"),
-    "C02": ([("pattern", 2, []), ("core", 500, ["-variants", ALLV]), ("memo", 300, ["-variants", ALLV]), ("salience", 120, [])],
+    "C02": ([("pattern", 2, []), ("patternx", 1, []), ("core", 500, ["-variants", ALLV]), ("memo", 300, ["-variants", ALLV]), ("salience", 120, [])],
             ["C02"], "a rule whose condition was false in the previous cycle is evaluated again after an action made it true"),
-    "C03": ([("salience", 600, ["-reps", "3"]), ("core", 150, []), ("control", 100, [])],
+    "C03": ([("salience", 600, ["-reps", "3"]), ("core", 150, []), ("control", 100, []), ("fault", 250, ["-flagp", "0.2", "-reps", "3"])],
             ["C03"], "a rule fired in a cycle whose recomputed conflict set held candidates of different salience"),
     "C06": ([("budget", 500, ["-listeners", "3", "-maxcycle", "5"]), ("control", 150, ["-listeners", "2"]),
              ("fault", 100, ["-flagp", "0.5"]), ("budget", 12, ["-cancel", "-maxcycle", "4"])],
@@ -39,9 +39,10 @@ PLAN = {
              ("core", 200, ["-calls", "3", "-mode", "mixed"]),
              ("control", 10, ["-calls", "2", "-cancel", "-maxcycle", "4"])],
             ["C08"], "a second or third call on an instance whose earlier call retracted a rule, completed, failed, hit the limit or was cancelled"),
-    "C10": ([("control", 700, ["-variants", ALLV]), ("salience", 150, [])],
+    "C10": ([("patternx", 2, []), ("control", 700, ["-variants", ALLV]), ("salience", 150, [])],
             ["C10", "C10c"], "an action retracted a known rule or called Complete while other work was pending"),
-    "C11": ([("fetch", 1200, ["-mode", "fetch", "-flagp", "0.3", "-variants", ALLV]), ("control", 200, ["-mode", "fetch"])],
+    "C11": ([("fetch", 1200, ["-mode", "fetch", "-flagp", "0.3", "-variants", ALLV]), ("control", 200, ["-mode", "fetch"]),
+             ("control", 250, ["-mode", "mixed", "-calls", "3"])],
             ["C11"], "a fetch whose rule set holds both matching and non-matching (or removed, or failing) rules"),
     "C13": ([("memo13", 800, ["-variants", ALLV]), ("memo13", 200, ["-calls", "2", "-mode", "mixed"])],
             ["C13"], "a later cycle started while the working memory held the value of the counted method atom shared by the rules (so it is consulted again)"),
@@ -55,10 +56,12 @@ PLAN = {
 # profile -> (module, configuration, harness sub-command, what the model is)
 EXPORTED = {
     "pattern": ("GruleMemo.tla", "MCMemo.cfg", "pattern-traces", "taint abstraction of the working memory, invariant MemoSound, dependency patterns"),
+    "patternx": ("GruleMemo.tla", "MCMemoExt.cfg", "pattern-traces", "taint abstraction with control calls (Complete / Retract before the assignment) and a re-read of the reader's condition after it, invariant MemoSound"),
     "reuse": ("GruleReuse.tla", "MCReuse.cfg", "reuse-traces", "call histories on one instance (3 call kinds x 5 endings, depth 3), invariant FreshAtStart"),
 }
 MODEL = {"quick": ("MCEngine.tla", "MCEngineQuick.cfg"), "thorough": ("MCEngine.tla", "MCEngine.cfg")}
 THOROUGH_FACTOR = 12
+FOCUS = ["none"]     # the property whose check is running: names the flag when several checks of one event fail
 
 
 def run_batch(gh, idx, profile, n, extra, seed, reps=2):
@@ -82,7 +85,7 @@ def run_batch(gh, idx, profile, n, extra, seed, reps=2):
         extra_model = {"what": "%s / %s: %s; %d cases exported" % (tla, cfg, what, len(seen)),
                        "distinct": res["distinct"], "generated": res["generated"], "patterns": len(seen)}
         cmd = [gh, subcmd, "-in", "exported.ndjson", "-seed", str(seed), "-out", "trace.ndjson", "-cases", "cases.ndjson"]
-        if profile == "pattern":
+        if profile in ("pattern", "patternx"):
             cmd += ["-worlds", str(n)]
     elif profile.startswith("grb:"):
         # C12 fault enumeration on the stored stream (truncation offsets, failing writer); traces only of prefixes that load
@@ -105,7 +108,7 @@ def run_batch(gh, idx, profile, n, extra, seed, reps=2):
                 "tlc": {"flags": [], "distinct": 0, "summary": {"marks": {}, "lines": 0}}}
     if stats.get("events", 0) == 0:
         raise ToolError("driver produced no events: %s\n%s" % (" ".join(cmd), p.stdout[-2000:] + p.stderr[-2000:]))
-    res = tlc(None, "TraceEngine.tla", "TraceEngine.cfg", d, workers=1, timeout=3000)
+    res = tlc(None, "TraceEngine.tla", "TraceEngine.cfg", d, workers=1, constants={"Focus": '"%s"' % FOCUS[0]}, timeout=3000)
     if not res["ok"] or res["summary"] is None or res["summary"]["lines"] != stats["events"]:
         tlc_failed(res, "batch %d (%s)" % (idx, profile))
     return {"dir": d, "profile": profile, "stats": stats, "tlc": res, "cmd": " ".join(cmd[1:]), "extra_model": extra_model}
@@ -140,7 +143,7 @@ def confirm(gh, case, prop, tag, reps=30):
     with open(os.path.join(d, "case.ndjson"), "w") as f:
         f.write(json.dumps(case) + "\n")
     run([gh, "engine-replay", "-cases", "case.ndjson", "-out", "trace.ndjson", "-reps", str(reps)], cwd=d, timeout=1200)
-    res = tlc(None, "TraceEngine.tla", "TraceEngine.cfg", d, workers=1, timeout=1200)
+    res = tlc(None, "TraceEngine.tla", "TraceEngine.cfg", d, workers=1, constants={"Focus": '"%s"' % FOCUS[0]}, timeout=1200)
     if not res["ok"]:
         tlc_failed(res, "confirmation run")
     first = {}
@@ -179,7 +182,7 @@ def save_replay(prop, tier, seed, k, flag, case, events, note, natural=None):
     os.makedirs(os.path.join(VERIF, "replays"), exist_ok=True)
     path = os.path.join(VERIF, "replays", "%s-%s-%d-%d.json" % (prop, tier, seed, k))
     with open(path, "w") as f:
-        json.dump({"property": prop, "flagged_as": natural or prop, "flag": flag, "kind": "engine-trace", "case": case, "observed": events, "note": note,
+        json.dump({"property": prop, "flagged_as": natural or prop, "focus": FOCUS[0], "flag": flag, "kind": "engine-trace", "case": case, "observed": events, "note": note,
                    "how": "./check replay " + path}, f, indent=1)
     return path
 
@@ -188,6 +191,7 @@ def replay(path):
     """./check replay <file>: re-executes the recorded case on the current /repo tree."""
     r = json.load(open(path))
     gh = build_harness()
+    FOCUS[0] = r.get("focus", "none")
     ok, codes = confirm(gh, r["case"], r.get("flagged_as", r["property"]), "replay", reps=50)
     print("replay of %s: flags now %s" % (path, codes))
     if ok:
@@ -205,7 +209,7 @@ def probe_alias(prop, gh):
     d = os.path.join(scratch(), "probe-alias")
     os.makedirs(d, exist_ok=True)
     run([gh, "probe-alias", "-out", "trace.ndjson", "-cases", "cases.ndjson"], cwd=d)
-    res = tlc(None, "TraceEngine.tla", "TraceEngine.cfg", d, workers=1, timeout=600)
+    res = tlc(None, "TraceEngine.tla", "TraceEngine.cfg", d, workers=1, constants={"Focus": '"%s"' % FOCUS[0]}, timeout=600)
     if not res["ok"]:
         tlc_failed(res, "alias probe")
     codes = sorted({c for c, _, _ in res["flags"] if flag_property(c) in ("C01", "C02")})
@@ -228,6 +232,7 @@ def evaluate(prop, batches, marks, rule, thorough_factor=None):
     tier, seed = tier_seed()
     t0 = time.time()
     gh = build_harness()
+    FOCUS[0] = prop
     factor = (thorough_factor or THOROUGH_FACTOR) if tier == "thorough" else 1
     jobs = []
     idx = 0
@@ -236,7 +241,7 @@ def evaluate(prop, batches, marks, rule, thorough_factor=None):
         parts = max(1, min(12, total // 400)) if tier == "thorough" else 1
         if profile.startswith("grb:"):
             parts = total  # one rule set per process
-        if profile == "pattern":
+        if profile in ("pattern", "patternx"):
             parts, total = 1, (n if tier == "quick" else 4 * n)  # fact states per pattern
         if profile == "reuse":
             parts, total = 1, 1
